@@ -27,6 +27,11 @@ pub fn exhaustive(alpha: &[u8], len: usize) -> Vec<Vec<u8>> {
     out
 }
 
+pub fn alpha_range(rng: &mut Rng, lo: usize, hi: usize) -> Vec<u8> {
+    let n = rng.range(lo, hi);
+    alpha_bytes(rng, n)
+}
+
 pub fn alpha_bytes(rng: &mut Rng, n: usize) -> Vec<u8> {
     (0..n)
         .map(|_| if rng.chance(1, 8) { rng.byte() } else { *rng.pick(&ALPHA) })
@@ -166,7 +171,7 @@ pub fn adversarial_stream(rng: &mut Rng, max_tokens: usize) -> Vec<u8> {
                 starts.push(s.len());
                 s.extend_from_slice(&spec::START);
             }
-            2 | 3 | 4 => s.extend(alpha_bytes(rng, rng.range(1, 6))),
+            2 | 3 | 4 => s.extend(alpha_range(rng, 1, 6)),
             5 => s.extend_from_slice(&[0x1b; 8]),
             6 => s.extend(std::iter::repeat(0x00).take(rng.range(1, 6))),
             7 => s.extend(std::iter::repeat(0x1b).take(rng.range(1, 7))),
@@ -541,7 +546,7 @@ impl<'a> Enc<'a> {
     }
 
     /// TLF with `k` bytes encoding the raw value `v` (must fit 4k bits)
-    fn tlf_raw(ty: u8, v: u64, k: usize, out: &mut Vec<u8>) {
+    pub fn tlf_raw(ty: u8, v: u64, k: usize, out: &mut Vec<u8>) {
         for i in 0..k {
             let shift = 4 * (k - 1 - i);
             let nib = ((v >> shift) & 0xF) as u8;
@@ -830,7 +835,7 @@ pub fn mutated_file(rng: &mut Rng, f: &GFile, fix_crc: bool) -> Vec<u8> {
         }
     }
     if heads.is_empty() {
-        return alpha_bytes(rng, rng.below(6));
+        return alpha_range(rng, 0, 5);
     }
     let nmut = rng.range(1, 3);
     for _ in 0..nmut {
@@ -854,7 +859,7 @@ pub fn mutated_file(rng: &mut Rng, f: &GFile, fix_crc: bool) -> Vec<u8> {
             }
             3 => {
                 let p = rng.below(h.len() + 1);
-                let ins = alpha_bytes(rng, rng.range(1, 4));
+                let ins = alpha_range(rng, 1, 4);
                 h.splice(p..p, ins);
             }
             4 => {
@@ -906,7 +911,7 @@ pub fn mutated_file(rng: &mut Rng, f: &GFile, fix_crc: bool) -> Vec<u8> {
             let n = rng.below(out.len() + 1);
             out.truncate(n);
         }
-        1 => out.extend(alpha_bytes(rng, rng.range(1, 4))),
+        1 => out.extend(alpha_range(rng, 1, 4)),
         2 => {
             // corrupt a tail (checksum or end marker)
             if !out.is_empty() {
